@@ -272,6 +272,7 @@ PENDING_REASON = "check not built yet in this round (design in DESIGN.md section
 
 # Extensions made after the seeding waves (appended to the level text / note of the check).
 ADDENDA = {
+    "C09": " The pair also runs on FrameCount.POSTPONED renderables (resolving to definite / INDEFINITE, read or unread), with a hash-colliding pair of render-args values and with output that depends on the duration setting.",
     "C01": " Plus the iter(image) entry point (frames == str(image) at that frame, exactly rendered_size).",
     "C12": " Configurations also vary the process environment (TERM_PROGRAM / TERM_PROGRAM_VERSION unset or set, judged against the documented fallback wherever XTVERSION is unsupported, disabled or unanswered, with a reply taking precedence) and the configured query timeout (0.05 / 0.1 / 0.5 s, + 0.03 in thorough) with reply delays on both sides of the 0.1 s default; elapsed virtual time is bounded by the configured timeout per query.",
     "C16": " Field values include equal-but-distinguishable pairs (True/1, float(default)/default, fresh equal tuples); "
@@ -279,11 +280,13 @@ ADDENDA = {
            "field, not by ==.",
     "C17": " Also tall-narrow sources (columns < rows), off-grid pixel sizes at two cell sizes, the global cell ratio "
            "{0.25, 1.0, 2.0, ...}, canvases trimmed after their image was rendered again at another size, and pairs of "
-           "content() iterators advanced in lock step.",
+           "content() iterators advanced in lock step. "
+           "The flow-rows clause is also judged after the environment changed behind an existing widget: the cell ratio for text styles, the terminal's cell size for graphics styles.",
     "C04": " The history alphabet also contains a render that fails because the source file is missing, a repeated "
            "rendered_size read across a cell-size and cell-aspect change on the same instance, a history-free twin "
            "comparison of every fixed automatic size, and a cached ImageIterator running across a resize or ratio "
-           "change (frame size == current size); the frame menu includes mixed absolute/relative frames.",
+           "change (frame size == current size); the frame menu includes mixed absolute/relative frames. "
+           "Also in unusual environments: a terminal reporting swapped pixel dimensions with the win-size-swap workaround enabled, and standard output not being the terminal (tty size versus stdout / shutil fallback size), in the grid and as extra history searches.",
     "C02": " The format(image, spec) entry point is exercised with every alpha-field form (`#`, thresholds, hex colours "
            "including digits-only ones, black and upper-case), and frames of mixed modes within one multi-page file are "
            "reached from every other page. "
@@ -313,10 +316,12 @@ ADDENDA = {
            "render issues inside draw().",
     "C08": " A terminal-resize operation with terminal-relative paddings (resolved at the moment of set_padding / "
            "construction) and a harness renderable whose output depends on the duration setting are part of the "
-           "alphabet.",
+           "alphabet. "
+           "Construction through RenderIterator() and through _from_render_data_ on pre-seeked renderables; FrameCount.POSTPONED renderables resolving to definite / INDEFINITE, read or unread; render-args values incl. a hash-colliding pair.",
     "C10": " The render-data finalizer hook and every call into a (subclassed) padding object during size validation / "
            "iterator priming are fault points too (OSError, KeyboardInterrupt); a constructor that raised is followed by "
-           "a garbage collection.",
+           "a garbage collection. "
+           "Padding-object faults also strike inside _from_render_data_ (caller data with finalize=False must stay un-finalized and reusable).",
     "C11": " Dynamic sizes (FIT, FIT_TO_WIDTH) with terminal resizes between and inside cached loops are part of the "
            "fault-free iteration searches (depth 7 / 8); for every draw(), a persistent standard-output failure from "
            "every write/flush index on (BrokenPipeError; ValueError of a closed stream in thorough), after which the "
@@ -339,17 +344,20 @@ ADDENDA = {
            "transitions include a neighbour on the image's rows changing, the public clear_images() in all its forms, and "
            "widgets of a subclass with format-spec z fields. A fault dimension: the k-th write of a redraw raises EAGAIN "
            "once, for every k and every transition out of the fault roots, the application survives; whatever a failed "
-           "redraw wrote must be bracketed, and the following redraws are judged by the full ghost oracle.",
+           "redraw wrote must be bracketed, and the following redraws are judged by the full ghost oracle. "
+           "The screen's output stream and the active terminal device are modelled as two devices; some roots run the screen on a terminal other than the active one, so clear / start / stop must clean the screen's own terminal.",
     "C19": " Plus a non-ASCII-digit pass and control-whitespace variants (newline, tab, CR as prefix / infix / suffix) of "
            "every sentence; every accepted sentence with a terminal-relative dimension is re-evaluated after a resize and "
            "after resizing back (same process). Entry points: cached ImageIterators with +style specs across a size "
            "change, UrwidImage-then-format-then-ImageIterator ordering, and rejected specifiers on live / closed / "
-           "file-missing images (documented error wins, source not opened).",
+           "file-missing images (documented error wins, source not opened). "
+           "A user-defined style with grouped field patterns written against the documented subclass hooks, with its own reference sub-grammar and exhaustive pass; iterm2 RGBA file sources decoded from the payload under each transparency setting.",
     "C20": " Class trees include mixin-first and mixin-last multiple inheritance, a diamond, the library's real abstract "
            "ancestry (BaseImage / GraphicsImage / TextImage) for forced support, and a subclass with a derived metaclass; "
            "the reference resolves along Python's MRO computed on a shadow hierarchy. Values include negative jpeg "
            "qualities and non-lowercase method spellings; every state is also checked through a cached ImageIterator with "
-           "an overriding spec across a size change.",
+           "an overriding spec across a size change. "
+           "KittyImage.clear() (plain / now / cursor / z_index) on a non-supporting terminal is an observation of effective forced support on every class node.",
 }
 NOTE_ADDENDA = {
     "C01": " draw()-level frame re-positioning (_display_animated) is outside this statement and owned by C06 / C05; "
